@@ -22,6 +22,11 @@ CODEC_RULE = ("well-formed client messages of all 5 types (all optional filter p
               "into its own and random other exported types; values of every type are round-tripped through json.Marshal; raw byte strings; non-trivial = every case; distinct = "
               "distinct output line")
 
+WS_RULE = ("real WebSocket sessions against httptest.NewServer(NewRelay(recording handler)): 2-10 frames each — correctly signed EVENTs (white space added), altered copies that keep id and "
+           "sig, EVENTs with a right id but a non-point pubkey / garbage signature, well-formed REQ/CLOSE/COUNT/AUTH, every single-point corruption of the codec generator, binary frames, "
+           "non-JSON, invalid UTF-8 inside a JSON string — each followed by a barrier CLOSE that the handler answers with a barrier NOTICE (no timeouts); then 0-4 handler-emitted server "
+           "messages of all 7 types read back as text frames; non-trivial = every session; distinct = distinct output line")
+
 PROPS = {
     "C02": {
         "lean_modules": ["MocProps.C02"],
@@ -221,6 +226,8 @@ PROPS = {
         "lean_modules": ["MocProps.C01"], "theorem_files": ["MocProps/C01.lean"],
         "gen_groups": ["Serialize"],
         "n_quick": 8000, "n_thorough": 40000, "thorough_seeds": 2, "timeout": 7000,
+        "monitors": ["canonical", "authentic"],
+        "extra_streams": [{"harness_prop": "ws", "driver_prop": "ws", "monitors": ["gate"], "n_quick": 500, "n_thorough": 5000, "replay_op": "ws"}],
         "rule": "events whose content and tag values are drawn per character class (ASCII, the 7 mandated escapes, other C0 controls, < > &, U+2028/9, DEL/C1, BMP, astral, combining; long "
                 "strings), all kinds / created_at signs / tag shapes, freshly signed with btcec through an independent NIP-01 serializer; for each: Serialize() bytes, their SHA-256 (also "
                 "recomputed by a Lean SHA-256), Verify(); then 3 single-field or single-bit alterations (content, created_at, kind, tags, pubkey, one bit of id / sig / pubkey) and malformed "
@@ -233,5 +240,18 @@ PROPS = {
         "level_note": "Trusted: Lean kernel + standard axioms; go2lean; harness/driver; crypto/sha256 (cross-checked by the Lean implementation on every case), btcec Schnorr, encoding/hex; "
                       "SHA-256 collision resistance and BIP-340 unforgeability.",
         "assumptions": ["events carry a non-nil tag list (Event.Valid); invalid UTF-8 cannot pass the gate", "ids/pubkeys/sigs in lower-case hex for the monitors (upper case is compared with the model only)"],
+    },
+    "C12": {
+        "lean_modules": ["MocProps.C12"], "theorem_files": ["MocProps/C12.lean"],
+        "gen_groups": ["Gate", "Serialize", "Valid", "Codec", "Consts"], "harness_prop": "ws", "driver_prop": "ws",
+        "monitors": ["gate"],
+        "n_quick": 1200, "n_thorough": 12000, "thorough_seeds": 3,
+        "rule": WS_RULE,
+        "level_text": "Partial by nature (transport): on the model the gate forwards a frame, unchanged, exactly when it is a text frame holding valid UTF-8 JSON that parses to a valid client "
+                      "message which, if an EVENT, verifies (gate_forwards_iff); every other frame yields exactly one NOTICE and nothing else (gate_rejects_otherwise); over a session the handler "
+                      "receives exactly the acceptable frames, once each, in order, and forwarded + rejected = frames sent (session_inbound, session_order). Tests and NOTICE texts are regenerated "
+                      "from relay.go. WebSocket framing, the read/write goroutines and the outbound JSON encoding are runtime-validated over real connections with per-frame barriers.",
+        "level_note": "Trusted: Lean kernel + standard axioms; go2lean; harness/driver; coder/websocket; utf8.Valid/json.Valid verdicts are taken from the standard library by the harness.",
+        "assumptions": ["frames stay within the configured size limit; the rate limiter is configured out of the way"],
     },
 }
